@@ -290,6 +290,12 @@ done:
 static ares_status_t config_search(ares_sysconfig_t *sysconfig, const char *str,
                                    size_t max_domains)
 {
+  /* A value made only of separators names no domain.  That is not an
+   * out-of-memory condition, just ignore it. */
+  if (str[strspn(str, ", ")] == '\0') {
+    return ARES_SUCCESS;
+  }
+
   if (sysconfig->domains && sysconfig->ndomains > 0) {
     /* if we already have some domains present, free them first */
     ares_strsplit_free(sysconfig->domains, sysconfig->ndomains);
